@@ -24,8 +24,8 @@ pub trait W: Clone + Merge + crate::types::Pair {}
 impl W for WeightedMean {}
 impl W for WeightedMeanWithError {}
 
-pub const PATHS: u8 = 8;
-pub const PATH_NAMES: [&str; 8] = ["add", "collect-val", "collect-ref", "extend-val", "extend-ref-2-pieces", "collect-val(zero-weight prefix)+add", "collect-ref(prefix)+extend-val", "collect(empty)+extend-ref"];
+pub const PATHS: u8 = 11;
+pub const PATH_NAMES: [&str; 11] = ["add", "collect-val", "collect-ref", "extend-val", "extend-ref-2-pieces", "collect-val(zero-weight prefix)+add", "collect-ref(prefix)+extend-val", "collect(empty)+extend-ref", "collect-val from a filter (size_hint lower bound 0)", "extend-ref from a filter, 2 pieces", "collect-ref from a filter + extend-val from a filter"];
 
 /// length of the prefix that is collected before the rest is added: the leading
 /// run of zero second components (zero weights) if there is one, else half
@@ -58,6 +58,22 @@ pub fn build_chunk<T: crate::types::Pair>(ps: &[(f64, f64)], path: u8) -> T {
         7 => {
             let mut t: T = ps[..0].iter().copied().collect();
             t.extend_ref(ps);
+            t
+        }
+        // the same ingestion paths through iterators that do not know their length (a filter that
+        // keeps everything): an implementation that sizes its work by size_hint must not lose items
+        8 => T::collect_val_unsized(ps),
+        9 => {
+            let mut t = T::new();
+            let h = ps.len() / 2;
+            t.extend_ref_unsized(&ps[..h]);
+            t.extend_ref_unsized(&ps[h..]);
+            t
+        }
+        10 => {
+            let k = prefix_len(ps);
+            let mut t = T::collect_ref_unsized(&ps[..k]);
+            t.extend_val_unsized(&ps[k..]);
             t
         }
         0 => {
@@ -311,7 +327,7 @@ pub fn run(cx: &Ctx) {
     cx.run_list(&Weighted, fixed(), "F5 reproducers and the doc example");
     cx.label("generated");
     let big = cx.by(3000, 30000);
-    cx.run_pt(&Weighted, cx.by(3000, 30000), cx.workers, move || wcase_strategy(3000, big), "n 1..=30000 (quick 3000), 7 zero-weight placements x 8 ingestion paths x merge trees");
+    cx.run_pt(&Weighted, cx.by(3000, 30000), cx.workers, move || wcase_strategy(3000, big), "n 1..=30000 (quick 3000), 7 zero-weight placements x 11 ingestion paths (3 of them through iterators without a length) x merge trees");
 }
 
 pub fn replay(check: &str, case: &serde_json::Value) -> Option<Result<(), String>> {
